@@ -301,7 +301,14 @@ def repr_history(sink, n):
             except KeyError:
                 failures += 1
                 got = None
+        for obj_ in (k, m):
+            try:
+                repr(obj_)  # make sure both objects are past their first, failing repr
+            except KeyError:
+                pass
         want = repr(optree.tree_structure(tree, none_is_leaf=bool(i % 2)))  # a fresh, equal treespec over the same (now well-behaved) objects
+        if got is None:
+            got = outcome(lambda: repr(sp))[1]
         ident = dict(part='repr-history', i=i, failed_reprs=failures)
         sink.check(isinstance(got, str) and got == want and got.startswith('PyTreeSpec(') and str(sp) == want, 'repr/after-failed-repr', 'repr renders the documented notation, also after an earlier repr of the same treespec failed', ident, lambda: (got, want))
         kids = sp.children()
